@@ -247,6 +247,7 @@ def main():
     ap.add_argument("--sample", type=int, default=0)
     ap.add_argument("--seed", type=int, default=0)
     ap.add_argument("--tests", action="store_true", help="run the repository's own suite on survivors")
+    ap.add_argument("--ids", default="", help="comma separated mutant ids: run only these")
     a = ap.parse_args()
     ms = []
     for f in a.files:
@@ -256,6 +257,9 @@ def main():
             print(m["id"], repr(m["old"]), "->", repr(m["new"]))
         print(len(ms), "mutants")
         return
+    if a.ids:
+        want = set(a.ids.split(","))
+        ms = [m for m in ms if m["id"] in want]
     rng = random.Random(a.seed)
     if a.sample and a.sample < len(ms):
         ms = rng.sample(ms, a.sample)
